@@ -234,7 +234,7 @@ def avdtp_roundtrip(label: int, n: int, x: int, mtu: int) -> bool:
 
 @harness(pre=['0 <= x <= 255 and 0 <= victim <= 3 and 0 <= kind <= 2'], family='avdtp-frag', timeout=(60, 200), grid={'mtu': [5], 'n': [5, 7]},
          kernels=('bumble.avdtp.Protocol.send_message', 'bumble.avdtp.MessageAssembler.on_pdu'),
-         bounds='a fragmented AVDTP message with one fragment (symbolic index) dropped / duplicated / re-labelled, followed by a second well-formed fragmented message: the second message is delivered intact exactly once and the broken one is never delivered')
+         bounds='a fragmented AVDTP message with one fragment (symbolic index) dropped / duplicated / re-labelled, followed by a second well-formed fragmented message: the second message is delivered intact exactly once, the broken one is never delivered when a fragment is missing, and nothing damaged (a hole, repeated or foreign bytes) is ever delivered')
 def avdtp_broken_sequence_costs_one_message(x: int, victim: int, kind: int, mtu: int, n: int) -> bool:
     p = _Proto(mtu)
     avdtp.Protocol.send_message(p, 3, _Msg(_rep(x, n)))
@@ -259,8 +259,11 @@ def avdtp_broken_sequence_costs_one_message(x: int, victim: int, kind: int, mtu:
         except Exception:
             pass
     good = (5, int(avdtp.AVDTP_DISCOVER), second_payload)
-    broken_delivered = any(g[0] == 3 and g[2] == _rep(x, n) for g in got) and kind == 0
-    return got.count(good) == 1 and got[-1] == good and not broken_delivered
+    intact = (3, int(avdtp.AVDTP_DISCOVER), _rep(x, n))
+    broken_delivered = any(g == intact for g in got) and kind == 0
+    # whatever is delivered is a message that was really sent: never a damaged one (a hole, repeated or foreign bytes)
+    damaged = any(g != good and g != intact for g in got)
+    return got.count(good) == 1 and got[-1] == good and not broken_delivered and not damaged
 
 
 # ------------------------------------------------------------------------------------------
